@@ -365,6 +365,12 @@ def concretize(p, perm=0, style=None):
                 u = it["um"]
                 txt = ("T%d" % u["lib"]) if u["whole"] else "T%d.macros['%s']" % (u["lib"], u["mname"])
                 stm.append(("use-macro", "metal:extend-macro" if u["ext"] else "metal:use-macro", [("x", (i, "use", 0), txt)]))
+            if it.get("tr", {}).get("m") == "yes":
+                stm.append(("translate", "i18n:translate", [it["tr"]["id"]]))
+            if it.get("nm"):
+                stm.append(("name", "i18n:name", [it["nm"]]))
+            if it.get("ia"):
+                stm.append(("i18n-attributes", "i18n:attributes", ["; ".join((a["n"] + (" " + a["id"] if a["id"] else "")) for a in it["ia"])]))
             i18 = it.get("i18n", {})
             if i18.get("m") == "yes":
                 if i18.get("d"):
@@ -486,7 +492,57 @@ ERRFIELD = None
 MACROEXPR = None
 
 
-def print_atoms(atoms, c, p, vf, objs=None):
+TRANS = None
+
+
+def norm_ws(s):
+    return re.sub(r"\s+", " ", s).strip()
+
+
+def interpolate(text, mapping):
+    if not mapping or not isinstance(text, str):
+        return text
+    return re.sub(r"\$\{([A-Za-z][-A-Za-z0-9_]*)\}", lambda m: str(mapping.get(m.group(1), m.group(0))), text)
+
+
+def tf_result(variant, msgid, mapping, default):
+    """what the harness's translation function returns (a pure function of its arguments)"""
+    if not isinstance(msgid, str):
+        return msgid
+    if variant == "rewrite":
+        return interpolate("T[" + msgid + "]", mapping)
+    if default is None:
+        default = msgid
+    return interpolate(default, mapping)
+
+
+def expected_translate_calls(log, c, p, vf, variant):
+    """the ordered translate calls the machine's log prescribes: (msgid, mapping, default, domain, context, target)"""
+    calls = []
+    for n, ev in enumerate(log, 1):
+        if ev["ev"] != "translate":
+            continue
+        info = _trans_info(ev, log, c, p, vf, variant)
+        if info["called"]:
+            calls.append((info["msgid"], info["mapping"], info["default"], ev["d"] or None, ev["c"] or None, ev["t"] or None))
+    return calls
+
+
+def _segtext(segs):
+    return "".join(s if isinstance(s, str) else "\n" for s in segs)
+
+
+def _trans_info(ev, log, c, p, vf, variant):
+    body = norm_ws(_segtext(_print_atoms(ev["cap"], c, p, vf, None, log, variant)))
+    mapping = {nm["n"]: _segtext(_print_atoms(nm["cap"], c, p, vf, None, log, variant)) for nm in ev["names"]} or None
+    explicit = ev["id"] != ""
+    msgid = ev["id"] if explicit else body
+    called = explicit or body != ""
+    return dict(called=called, msgid=msgid, mapping=mapping, default=body,
+                result=tf_result(variant, msgid, mapping, body) if called else "")
+
+
+def print_atoms(atoms, c, p, vf, objs=None, log=None, variant="identity"):
     global ERRFIELD
 
     def errfield(v):
@@ -498,10 +554,10 @@ def print_atoms(atoms, c, p, vf, objs=None):
     ERRFIELD = errfield
     global MACROEXPR
     MACROEXPR = lambda v: c.sites[(v["i"], "use", 0)]["text"].rsplit("/", 1)[-1]
-    return _print_atoms(atoms, c, p, vf, objs)
+    return _print_atoms(atoms, c, p, vf, objs, log, variant)
 
 
-def _print_atoms(atoms, c, p, vf, objs=None):
+def _print_atoms(atoms, c, p, vf, objs=None, log=None, variant="identity"):
     """atoms: the machine's output stream.  Returns a list of segments:
     str (exact) or a compiled regex (free region).  `objs` maps log-derived
     python objects for values that came from calls (identity matters only
@@ -528,6 +584,10 @@ def _print_atoms(atoms, c, p, vf, objs=None):
                 space, eq, quote = " ", "=", '"'
             t = _val_text(a["v"], vf, objs)
             segs.append(space + d["n"] + eq + quote + esc_attr(t, quote) + quote)
+        elif k == "nameph":
+            segs.append("${%s}" % a["n"])
+        elif k == "trans":
+            segs.append(_trans_info(log[a["e"] - 1], log, c, p, vf, variant)["result"])
         elif k == "sdflt":
             # 'default': the static value under the statement's spelling of the name
             it = p["items"][a["i"] - 1]
